@@ -85,6 +85,9 @@ class EventLog(object):
         # of the scenario (mpilot's curve commands leave cells holding NaN unassigned in a numpy.empty buffer: whatever
         # was in that memory is printed).  The operations themselves stay in the log.
         self.blind_sizes = False
+        # When the code under test may read memory it never initialised (same cause), what happens after the scenario was
+        # set up is not a function of the scenario: the digest then covers the events up to this position only.
+        self.digest_cut = None
 
     def emit(self, kind_, **payload):
         if len(self.events) >= self.cap:
@@ -116,7 +119,7 @@ class EventLog(object):
 
     def digest(self):
         hsh = hashlib.sha256()
-        for kind, payload in self.events:
+        for kind, payload in (self.events if self.digest_cut is None else self.events[:self.digest_cut]):
             hsh.update(kind.encode())
             hsh.update(b"|")
             hsh.update(canon(payload).encode())
@@ -180,6 +183,7 @@ class RunResult(object):
             "violations": [v.as_dict() for v in self.violations],
             "digest": self.log.digest() if self.log is not None else None,
             "n_events": self.log.seq if self.log is not None else 0,
+            "digest_cut": self.log.digest_cut if self.log is not None else None,
             "probes": dict(self.probes),
             "faults": dict(self.faults),
             "faults_cfg": dict(self.faults_cfg),
@@ -196,6 +200,7 @@ def result_from_payload(events, summary):
     res = RunResult()
     log = EventLog(cap=10 ** 9)
     log.events = events
+    log.digest_cut = summary.get("digest_cut")
     res.log = log
     res.violations = [Violation(v["inv"], v["sig"], v["detail"]) for v in summary["violations"]]
     res.probes, res.faults, res.faults_cfg, res.obs = summary["probes"], summary["faults"], summary["faults_cfg"], summary["obs"]
